@@ -161,3 +161,69 @@ def run_model(ctx, r, cases, fuel=20000, timeout=600):
     lines = p.stdout.split("\n")
     got = [l.strip() for l in lines[:len(cases)]]
     return got + ["MODEL-NO-OUTPUT"] * (len(cases) - len(got))
+
+
+# ---------------------------------------------------------------- model generator (LR/Gen.v) vs gocc
+def gen_compare(ctx, r):
+    """Runs the extracted Gallina model of gocc's LR(1) generator on the grammar of record r (numbering, symbol order and look-ahead
+    order taken from gocc's dump) and compares with gocc's own item sets (order included), transitions, and — when gocc produced
+    tables — the action rows / canRecover / goto rows read back from the COMPILED parser. Returns None or a description."""
+    d = r.dump
+    if "states" not in d or not d.get("prods"):
+        return None
+    terms, nts = d["terminals"], d["nonterminals"]
+    ti = {n: i for i, n in enumerate(terms)}
+    ni = {n: i for i, n in enumerate(nts)}
+
+    def sym(s):
+        return ("N%d" % ni[s]) if s in ni else ("T%d" % ti[s])
+    prods = ";".join("%d:%s" % (p["nt"], " ".join(sym(s) for s in (p["body"] if p["len"] > 0 else []))) for p in d["prods"])
+    la = sorted(range(len(terms)), key=lambda i: terms[i].encode("utf-8"))
+    terr = ti.get("error", 0)
+    pacts = [0] + [1 if r.g.has_action(i) else 0 for i in range(len(r.g.prods))]
+    path = os.path.join(r.dir, "gen.in")
+    with open(path, "w") as f:
+        f.write("%d %d %d\n%s\n%s\n%s\n%s\n" % (len(nts), len(terms), terr, prods, " ".join(sym(s) for s in d["symbols"]),
+                                                 " ".join(map(str, la)), " ".join(map(str, pacts))))
+    p = subprocess.run([ctx.modelrun, "gen", path], capture_output=True, text=True, timeout=600)
+    lines = p.stdout.split("\n")
+    kind = lines[0].strip() if lines else "NO-OUTPUT"
+    nconf = d.get("numConflicts", 0)
+    panicked = bool(d.get("panic"))
+    if kind.startswith("OK"):
+        if nconf or panicked:
+            return "model generator reports no conflict, gocc reports %s" % ("a panic" if panicked else nconf)
+    elif kind.startswith("CONFLICT"):
+        k = int(kind.split()[1])
+        if not panicked and k != nconf:
+            return "model generator: %d conflicting states, gocc announces %d" % (k, nconf)
+        if not nconf and not panicked:
+            return "model generator reports a conflict, gocc none"
+    else:
+        return "model generator: %s %s" % (kind, p.stderr[-200:])
+    rows = [l for l in lines[1:] if l.startswith("I ")]
+    if len(rows) != len(d["states"]):
+        return "model generator builds %d states, gocc %d" % (len(rows), len(d["states"]))
+    tabs = getattr(r, "tables", None) if kind.startswith("OK") else None
+    for s, (row, st) in enumerate(zip(rows, d["states"])):
+        parts = [x.strip() for x in row.split("|")]
+        items = parts[0][2:].split()
+        want = ["%d,%d,%d" % (it["p"], it["k"], ti[it["la"]]) for it in st["items"]]
+        if items != want:
+            return "state %d: items (with order) differ: model %s gocc %s" % (s, items[:6], want[:6])
+        tr = sorted(parts[1][2:].split())
+        wtr = sorted("%s>%d" % (sym(x), t) for x, t in st["trans"].items())
+        if tr != wtr:
+            return "state %d: transitions differ: model %s gocc %s" % (s, tr, wtr)
+        if tabs is not None:
+            acts = [int(x) for x in parts[2][2:].split()]
+            rec = parts[3][2:].strip() == "1"
+            gotos = [int(x) for x in parts[4][2:].split()]
+            ct = tabs["states"][s]
+            if acts != ct["actions"][:len(acts)] or any(ct["actions"][len(acts):]):
+                return "state %d: action row differs: model %s compiled %s" % (s, acts, ct["actions"])
+            if rec != ct["canRecover"]:
+                return "state %d: canRecover differs" % s
+            if gotos != ct["gotos"]:
+                return "state %d: goto row differs: model %s compiled %s" % (s, gotos, ct["gotos"])
+    return None
